@@ -6,7 +6,9 @@ import (
 	"sync"
 	"time"
 
+	"github.com/aukilabs/go-tooling/pkg/errors"
 	"github.com/aukilabs/go-tooling/pkg/logs"
+	"github.com/aukilabs/hagall-common/messages/hagallpb"
 	hwebsocket "github.com/aukilabs/hagall-common/websocket"
 	"github.com/google/uuid"
 )
@@ -154,11 +156,29 @@ func (s *Session) AddEntity(e *Entity) {
 	s.entities[e.ID] = e
 }
 
+// RemoveEntity removes the entity from the session, along with its components.
 func (s *Session) RemoveEntity(e *Entity) {
 	s.entityMutex.Lock()
 	defer s.entityMutex.Unlock()
 
 	delete(s.entities, e.ID)
+
+	// Done under the entity lock: a component can't be added to the entity
+	// while it is being removed (see AddEntityComponent), which would leave a
+	// component without entity in the session.
+	s.entityComponents.DeleteByEntityID(e.ID)
+}
+
+// AddEntityComponent adds a component to an entity of the session. The entity
+// can't be removed while its component is being added.
+func (s *Session) AddEntityComponent(ec *hagallpb.EntityComponent) error {
+	s.entityMutex.RLock()
+	defer s.entityMutex.RUnlock()
+
+	if _, ok := s.entities[ec.EntityId]; !ok {
+		return errors.New("entity not found").WithTag("entity_id", ec.EntityId)
+	}
+	return s.entityComponents.Add(ec)
 }
 
 func (s *Session) EntityByID(id uint32) (*Entity, bool) {
